@@ -39,6 +39,9 @@ pub struct Log {
     pub eof_reads: u32,
     pub flushes: u32,
     pub dropped: bool,
+    /// upper bound on the bytes this transport may serve (0 = none); exceeding it raises `over_limit`
+    pub limit: usize,
+    pub over_limit: bool,
 }
 
 impl Log {
@@ -89,11 +92,18 @@ impl Read for Scripted {
             });
             return Ok(0);
         }
+        if log.limit > 0 && log.served > log.limit {
+            log.over_limit = true;
+            return Err(io::Error::new(io::ErrorKind::Other, "harness: client pulled more than the bound for this construct"));
+        }
+        if log.eof_reads > 4096 {
+            return Err(io::Error::new(io::ErrorKind::Other, "harness: client keeps reading at end of stream"));
+        }
         loop {
             match self.events.get(self.idx) {
                 None | Some(Ev::Eof) => {
                     log.eof_reads += 1;
-                    if log.reads.len() < 100_000 {
+                    if log.reads.len() < 4096 {
                         log.reads.push(ReadRec {
                             offered: buf.len(),
                             served: 0,
@@ -116,7 +126,7 @@ impl Read for Scripted {
                         self.off = 0;
                     }
                     log.served += n;
-                    if log.reads.len() < 100_000 {
+                    if log.reads.len() < 4096 {
                         log.reads.push(ReadRec {
                             offered: buf.len(),
                             served: n,
@@ -133,7 +143,7 @@ impl Read for Scripted {
                     }
                     self.off = (self.off + n) % plen;
                     log.served += n;
-                    if log.reads.len() < 100_000 {
+                    if log.reads.len() < 4096 {
                         log.reads.push(ReadRec {
                             offered: n,
                             served: n,
@@ -155,7 +165,7 @@ impl Read for Scripted {
                 }
                 Some(Ev::Pause) => {
                     log.would_block += 1;
-                    if log.reads.len() < 100_000 {
+                    if log.reads.len() < 4096 {
                         log.reads.push(ReadRec {
                             offered: buf.len(),
                             served: 0,
@@ -205,12 +215,18 @@ pub struct Net {
 
 /// Install a factory that serves the given scripts in order (one per dial); further dials are refused.
 pub fn serve_scripts(scripts: Vec<Vec<Ev>>) -> (FactoryGuard, Arc<Mutex<Net>>) {
+    serve_scripts_limited(scripts, 0)
+}
+
+/// Like `serve_scripts`; every transport refuses to serve more than `limit` bytes (0 = unlimited).
+pub fn serve_scripts_limited(scripts: Vec<Vec<Ev>>, limit: usize) -> (FactoryGuard, Arc<Mutex<Net>>) {
     let net = Arc::new(Mutex::new(Net::default()));
     let net2 = net.clone();
     let mut scripts = scripts.into_iter();
     let guard = install_factory(move |dial| match scripts.next() {
         Some(events) => {
             let (t, log) = Scripted::new(events);
+            log.lock().unwrap().limit = limit;
             net2.lock().unwrap().dials.push((dial.clone(), log));
             Ok(Box::new(t) as Box<dyn Transport>)
         }
